@@ -48,3 +48,77 @@ Theorem C15_graph_sums : forall rootname tids s q, wf_stream s = true -> NoDup t
   /\ time_at q (graph_build 0 rootname tids s) = time_path q (ref_calls tids s) mod W64.
 Proof. exact graph_sums. Qed.
 Print Assumptions C15_graph_sums.
+
+(* The tree the printers walk never has two children of one node with the same name, and the walk
+   (shared by graph, flame graph, graphviz and mermaid) visits every node below the root exactly once. *)
+Theorem C15_graph_unique_children : forall sample rootname tids s, uniq (graph_build sample rootname tids s).
+Proof. exact uniq_graph_build. Qed.
+Print Assumptions C15_graph_unique_children.
+
+Theorem C15_walk_is_the_tree : forall root e, uniq root ->
+  (In e (walk_root root) <->
+   w_path e <> [] /\ find_path (w_path e) root = Some (w_node e) /\ find_path (removelast (w_path e)) root = Some (w_par e)).
+Proof. exact walk_root_spec. Qed.
+Print Assumptions C15_walk_is_the_tree.
+
+(* `dump --flame-graph` without sampling: (p, c) is a printed line  iff  c is the number of calls along the
+   name path p and that number is not 0 ... *)
+Theorem C15_flame_count : forall rootname tids s, wf_stream s = true -> NoDup tids ->
+  forall p c, In (p, c) (flame_rows 0 (graph_build 0 rootname tids s))
+              <-> (c = count_path p (ref_entries [] s) /\ c <> 0).
+Proof. exact flame_count_lines. Qed.
+Print Assumptions C15_flame_count.
+
+(* ... and no path is printed twice. *)
+Theorem C15_flame_one_line_per_path : forall rootname tids s,
+  NoDup (map fst (flame_rows 0 (graph_build 0 rootname tids s))).
+Proof. exact flame_one_line_per_path. Qed.
+Print Assumptions C15_flame_one_line_per_path.
+
+(* The TEXT of a flame line shows that count only while it has no more digits than the path text has
+   characters (print_flame_graph: snprintf(ptr, len, ...) with len = length of the names) ... *)
+Theorem C15_flame_text_guarded : forall l, flame_fits l = true -> flame_text l = flame_text_full l.
+Proof. exact flame_text_fits. Qed.
+Print Assumptions C15_flame_text_guarded.
+
+(* ... and is cut otherwise: f called 13 times is printed as `f 1`. *)
+Theorem C15_flame_text_refuted :
+  wf_stream trunc_witness = true
+  /\ flame_rows 0 (graph_build 0 [] [100] trunc_witness) = [([[102]], 13)]
+  /\ map flame_text (flame_lines 0 (graph_build 0 [] [100] trunc_witness)) = [[102; 32; 49]]
+  /\ map flame_text_full (flame_lines 0 (graph_build 0 [] [100] trunc_witness)) = [[102; 32; 49; 51]].
+Proof. exact flame_truncation_refuted. Qed.
+Print Assumptions C15_flame_text_refuted.
+
+(* `dump --graphviz`: (a, b, c) is a printed edge `a -> b [xlabel = c]`  iff  there is a name path p with c <> 0 calls
+   along it whose last name is b and whose caller (last name but one, or the program) is a. *)
+Theorem C15_edges_graphviz : forall rootname tids s, wf_stream s = true -> NoDup tids ->
+  forall a b c, In (a, b, c) (dot_rows (graph_build 0 rootname tids s)) <->
+    exists p, c = count_path p (ref_entries [] s) /\ c <> 0 /\ b = last p [] /\ a = last (removelast p) rootname.
+Proof. exact dot_edges. Qed.
+Print Assumptions C15_edges_graphviz.
+
+(* `dump --mermaid`: every edge line is made from a walk entry e; its |n| label is the number of calls along
+   e's path, the two boxes carry the callee's and the caller's name. *)
+Theorem C15_edges_mermaid : forall rootname tids s, wf_stream s = true -> NoDup tids ->
+  forall e, In e (walk_root (graph_build 0 rootname tids s)) ->
+    n_calls (w_node e) = count_path (w_path e) (ref_entries [] s)
+    /\ n_name (w_node e) = last (w_path e) [] /\ n_name (w_par e) = last (removelast (w_path e)) rootname.
+Proof. exact mermaid_edges. Qed.
+Print Assumptions C15_edges_mermaid.
+
+(* `uftrace graph`: every row below the program's own row is (depth, name, calls, TOTAL TIME) of one name path;
+   every path with a call has its row. *)
+Theorem C15_graph_rows : forall rootname tids s, wf_stream s = true -> NoDup tids ->
+  forall d x c t, In (d, x, c, t) (tl (graph_rows (graph_build 0 rootname tids s))) ->
+    exists p, d = N.of_nat (length p) /\ x = last p [] /\ c = count_path p (ref_entries [] s)
+              /\ t = time_unit (time_path p (ref_calls tids s) mod W64).
+Proof. exact graph_rows_faithful. Qed.
+Print Assumptions C15_graph_rows.
+
+Theorem C15_graph_rows_complete : forall rootname tids s, wf_stream s = true -> NoDup tids ->
+  forall p, count_path p (ref_entries [] s) <> 0 ->
+    In (N.of_nat (length p), last p [], count_path p (ref_entries [] s),
+        time_unit (time_path p (ref_calls tids s) mod W64)) (tl (graph_rows (graph_build 0 rootname tids s))).
+Proof. exact graph_rows_complete. Qed.
+Print Assumptions C15_graph_rows_complete.
